@@ -13,7 +13,7 @@ def load_rule_modules():
 
 PROPS = {
     "C01": {
-        "rules": ["C01.R1", "C01.R2", "C01.R3", "C01.R4", "C01.R5", "C01.R6", "C01.R8", "C01.R9", "C03.R4", "C03.R5", "C07.R4", "C20.R2", "C18.R1", "C18.R2", "C13.R1", "C13.R2", "C13.R3", "C12.R3", "C12.R4"],
+        "rules": ["C01.R1", "C01.R2", "C01.R3", "C01.R4", "C01.R5", "C01.R6", "C01.R8", "C01.R9", "C03.R4", "C03.R5", "C07.R4", "C20.R2", "C18.R1", "C18.R2", "C13.R1", "C13.R2", "C13.R3", "C12.R3", "C12.R4", "C12.R7"],
         "explanation": "Decides the integrity of the up-to-date decision (each rule a necessary condition of C01): history looked up and recorded under this rule's sources hash; sources hash covers every upstream hash in receiver order; remembered vector index-aligned with the targets; AlreadyCorrect only under a full Ticket equality with the current hash of the same file; command skipped only when no target needs rebuilding; what is recorded is what was read from disk after a successful command; producer/consumer sub-index agreement; a status of Recovered only where a restore happened; the mtime shortcut is exact. Not decided: byte equality with a from-scratch build over arbitrary histories (runtime state).",
     },
     "C02": {
@@ -21,7 +21,7 @@ PROPS = {
         "explanation": "Decides: at most one command execution per rule per build (no call site of the chain on a cycle or twice on a path); the Up-to-date path reaches no mutating System method; the command runs only on the true edge of needs-rebuild; NeedsRebuild only after the cache (and download) said NotThere; what was learned is persisted (history returned and written). Not decided: that a lookup hits on a given history.",
     },
     "C03": {
-        "rules": ["C03.R1", "C03.R2", "C03.R3", "C03.R4", "C03.R5", "C09.R3", "C12.R3", "C12.R4"],
+        "rules": ["C03.R1", "C03.R2", "C03.R3", "C03.R4", "C03.R5", "C09.R3", "C12.R3", "C12.R4", "C12.R7"],
         "explanation": "Decides the happens-before chain of C03 as it is visible in the code's shape: handler only on the Ok edge of the draining function; draining function returns Ok only after recv succeeded on every receiver; hashes are announced only after the handler returned Ok and are taken from its result by the sub-index stored with the sender. Not decided: correctness of the announced content, acyclicity of the runtime plan.",
     },
     "C04": {
@@ -37,7 +37,7 @@ PROPS = {
         "explanation": "Non-interference argument: threads share nothing but channels and the file system (capture inventory); the only contended resource is the cache directory, on which no check-then-act may turn a lost race into a hard error; absence of a cache entry is never an error; channel results are consumed in receiver order, never arrival order. Not decided: equality of final bytes.",
     },
     "C07": {
-        "rules": ["C07.R1", "C07.R2", "C07.R3", "C07.R4", "C01.R6"],
+        "rules": ["C07.R1", "C07.R2", "C07.R3", "C07.R4", "C01.R6", "C01.R9", "C18.R1", "C18.R2"],
         "explanation": "Decides: a file enters the cache only under the hash computed from that very path with no mutation in between; one naming scheme for writer and readers; only the two renames of cache.rs write into the cache directory; (path, assumed state) pairs come from one FileInfo; hashes are refreshed after a command. Not decided: truth of remembered (hash, mtime) pairs at runtime.",
     },
     "C08": {
@@ -57,7 +57,7 @@ PROPS = {
         "explanation": "Decides: user data moves only by single renames (no open+create copy); history written only after a successful join, the file-state table only after all joins; state files read back by a strict decoder must be replaced atomically (temp + rename). Not decided: the disk state at each individual crash point (fault enumeration).",
     },
     "C12": {
-        "rules": ["C12.R1", "C12.R2", "C12.R3", "C12.R4", "C12.R5", "C12.R6"],
+        "rules": ["C12.R1", "C12.R2", "C12.R3", "C12.R4", "C12.R5", "C12.R6", "C12.R7"],
         "explanation": "Decides: duplicate targets are detected for every target of every rule; the goal-restricted sort starts only at an existing goal; rules / targets / sources are sorted before numbering and no hash-order iteration reaches the plan; every source is bound to (final index of the producing rule, position among its targets) or to its leaf entry; both cyclic verdicts exist and are guarded; the cycle verdict is issued only against open (visited, on-stack) frames. Not decided: that the DFS visits exactly the ancestors, once, in dependency order (algorithmic).",
     },
     "C13": {
@@ -73,7 +73,7 @@ PROPS = {
         "explanation": "Decides: the chunk loop feeds the SHA-256 digest exactly buffer[..n] of each read and returns only at end of file; the directory hash covers the listing and every entry's own hash; encoder alphabet and decoder table are mutual inverses over exactly the 62 alphanumerics with consistent base, padding, endianness and length; the decoder rejects wrong length, foreign characters and values over 32 bytes; the codec's panic obligations. Not decided: correctness of rust-crypto / num-bigint; equality with an independent SHA-256 (runtime comparison).",
     },
     "C16": {
-        "rules": ["C16.R1", "C16.R2", "C16.R3"],
+        "rules": ["C16.R1", "C16.R2", "C16.R3", "C16.R4"],
         "explanation": "Decides: writer and reader of each state file instantiate bincode with the same type through the default entry points; a decode error is an error all the way up to the entry points (never a default value); no panic-capable local site is reachable from the state readers. Not decided: bincode's behaviour on arbitrary, truncated or bit-flipped bytes (dependency semantics).",
     },
     "C17": {
@@ -81,11 +81,11 @@ PROPS = {
         "explanation": "Decides: insert never overwrites (only on the miss edge of the same key) and maps Contradiction to Err; every successful re-execution passes through insert; exactly the indices whose tickets differ are reported and mapped to paths[i] of the refreshed blob; the earlier record cannot leave through an error. Not decided: whether a given history forces re-execution.",
     },
     "C18": {
-        "rules": ["C18.R1", "C18.R2", "C01.R6", "C01.R9"],
+        "rules": ["C18.R1", "C18.R2", "C01.R6", "C01.R9", "C11.R2"],
         "explanation": "Decides: the shortcut is taken only under exact equality of the file's own mtime with the remembered one; the table is refreshed whenever a command ran. Not decided: equality of paired runs over all histories.",
     },
     "C19": {
-        "rules": ["C19.R1", "C19.R2", "C19.R3", "C19.R4", "C07.R2", "C15.R4"],
+        "rules": ["C19.R1", "C19.R2", "C19.R3", "C19.R4", "C19.R5", "C07.R2", "C15.R4"],
         "explanation": "Decides: both endpoints decode every request name as a ticket before any file-system access and answer 404 otherwise; the only file-system entry points reachable from a request take a Ticket and build `<ruler dir>/<43 alphanumerics>`; 200 only on the success edges of lookup and read, every lookup failure is 404, bodies are the opened entry's bytes / the newline-joined hashes of the looked-up vector; request handlers' panic obligations. Not decided: that served bytes equal the requested content at runtime (C07); warp's routing.",
     },
     "C20": {
